@@ -5,8 +5,8 @@
          cl_forward -- "marks attached to a value at a point are attached at every later point", for every mark dumped;
      (2) the rule system R: violations F S' where S' is a SUBSET of the implementation's facts selected by this
          (untrusted) driver: the marks of spec origins (parameter / free variable / call result with a summary node)
-         located at points reachable from the origin's own point (at the origin's point itself only on the origin's value and the
-         value defined there, unless that point lies on a CFG cycle), on values that have a definition (not constants,
+         located at points reachable from the origin's own point (at the origin's point itself only on the origin's value, the
+         value defined there and the address written there, unless that point lies on a CFG cycle), on values that have a definition (not constants,
          globals, functions: the implementation's base-object rule can put marks on a shared *ssa.Const, and transferCopy
          deliberately does not transfer from constants), plus all summary edges.  The selection drops artefacts of the
          implementation's backward RunDefers edges and base-object propagation (a call's mark on its own arguments).  It is
@@ -16,6 +16,9 @@
 
    Output, one block per function:
      R <fid> wf=<0|1> closed=<0|1> fwd=<0|1> nviol=<n> nfwd=<n> nfacts=<n> nsel=<n> nreq=<n>
+           l2aa=<check_addr_alloc> l2sc=<check_store_closed on S'> l2lo=<check_loads_ok> nst= nld= nal=   (Lang/RegSem.hfunc built
+           from the LS / LL / LA lines: T-cert of intra_sound_L2_noalias_partial_tcert on the fragment l2aa=1)
+     Y <fid> store <p> <x> <a> <m>            diagnostics: store *a = x at p, mark m on x but not on a
      V <fid> origin <mid> <pid> <vid> | forward <p> <q> <v> <m> | transfer <p> <a> <r> <m> | edge <p> <v> <m> <u>
      W <fid> forward <p> <q> <v> <m>          violations of (1)
      Q <fid> <mid> <uid>                      edges required by the executable chain search of the model (chain_values)
@@ -71,10 +74,13 @@ type st = {
   mutable uses : (int * (int * int)) list;
   mutable facts : fact list;
   mutable nfacts : int;
+  mutable stores : (int * (int * int)) list;   (* LS: point, (address register, stored value) *)
+  mutable loads : (int * int) list;            (* LL: point, address register *)
+  mutable allocs : int list;                   (* LA: point *)
 }
 
 let fresh () = { fid = ""; instrs = []; reachable = Hashtbl.create 64; succ = []; defs = []; origins = []; tuples = [];
-                 uses = []; facts = []; nfacts = 0 }
+                 uses = []; facts = []; nfacts = 0; stores = []; loads = []; allocs = [] }
 
 let maxv = ref 20
 
@@ -118,6 +124,9 @@ let flush_fn (s : st) =
     (seen, !oncycle) in
   let has_def = Hashtbl.create 64 in
   List.iter (fun (v, _) -> Hashtbl.replace has_def v ()) s.defs;
+  (* address registers of stores are kept too (a global used as an address has no definition point): check_store_closed is
+     evaluated on the same selected list *)
+  List.iter (fun (_, (a, _)) -> if a > 0 then Hashtbl.replace has_def a ()) s.stores;
   let sel = Hashtbl.create 16 in
   List.iter (fun (m, pt, v) -> if is_r pt then Hashtbl.replace sel m (pt, v, reach_from pt)) s.origins;
   let nsel = ref 0 in
@@ -129,14 +138,44 @@ let flush_fn (s : st) =
          | None -> false
          | Some (p0, v0, (seen, oncycle)) ->
            let pi = int_of_pos pp in
-           let keep = pi <= npts && Bytes.get seen pi = '1' && Hashtbl.mem has_def (int_of_pos vv) && (pi <> p0 || int_of_pos vv = v0 || oncycle || List.mem (int_of_pos vv, p0) s.defs) in
+           let keep = pi <= npts && Bytes.get seen pi = '1' && Hashtbl.mem has_def (int_of_pos vv) && (pi <> p0 || int_of_pos vv = v0 || oncycle || List.mem (int_of_pos vv, p0) s.defs
+                                                      || List.exists (fun (pt, (a, _)) -> pt = p0 && a = int_of_pos vv) s.stores) in
            if keep then incr nsel; keep)) s.facts in
   let vs = violations f facts' in
   let nv = List.length vs in
   let req = required_edges f (nat_of_int (List.length s.instrs + 2)) in
   let req = List.sort_uniq compare (List.map (fun (m, u) -> (int_of_pos m, int_of_pos u)) req) in
-  Printf.printf "R %s wf=%d closed=%d fwd=%d nviol=%d nfwd=%d nfacts=%d nsel=%d nreq=%d\n" s.fid (if wf then 1 else 0)
-    (if nv = 0 then 1 else 0) (if nfw = 0 then 1 else 0) nv nfw s.nfacts !nsel (List.length req);
+  (* L2 fragment (Lang/RegSem.v): hfunc = F + store / load / alloc tables; the three boolean hypotheses of
+     intra_sound_L2_noalias_partial_tcert other than check_closed, on the SAME selected fact list *)
+  let stores = List.filter (fun (pt, (a, x)) -> is_r pt && a > 0 && x > 0) s.stores in
+  let loads = List.filter (fun (pt, a) -> is_r pt && a > 0) s.loads in
+  let allocs = List.filter is_r s.allocs in
+  let h = { h_func = f;
+            h_store = List.fold_left (fun m (pt, (a, x)) -> PositiveMap.add (p pt) (p a, p x) m) PositiveMap.empty stores;
+            h_load = List.fold_left (fun m (pt, a) -> PositiveMap.add (p pt) (p a) m) PositiveMap.empty loads;
+            h_alloc = List.fold_left (fun m pt -> PositiveSet.add (p pt) m) PositiveSet.empty allocs } in
+  let l2aa = check_addr_alloc h in
+  let l2lo = check_loads_ok h in
+  let l2sc = check_store_closed h facts' in
+  Printf.printf "R %s wf=%d closed=%d fwd=%d nviol=%d nfwd=%d nfacts=%d nsel=%d nreq=%d l2aa=%d l2sc=%d l2lo=%d nst=%d nld=%d nal=%d\n"
+    s.fid (if wf then 1 else 0)
+    (if nv = 0 then 1 else 0) (if nfw = 0 then 1 else 0) nv nfw s.nfacts !nsel (List.length req)
+    (if l2aa then 1 else 0) (if l2sc then 1 else 0) (if l2lo then 1 else 0)
+    (List.length stores) (List.length loads) (List.length allocs);
+  if not l2sc then begin
+    (* diagnostics only (unverified): the store instances whose address register lacks a mark of the stored value *)
+    let fs = fs_build facts' in
+    let st = Hashtbl.create 16 in
+    List.iter (fun (pt, ax) -> Hashtbl.replace st pt ax) stores;
+    let k = ref 0 in
+    List.iter (fun f -> match f with
+        | Mark (pp, xx, mm) ->
+          (match Hashtbl.find_opt st (int_of_pos pp) with
+           | Some (a, x) when x = int_of_pos xx && not (mem_mark fs pp (p a) mm) && !k < !maxv ->
+             incr k; Printf.printf "Y %s store %d %d %d %d\n" s.fid (int_of_pos pp) x a (int_of_pos mm)
+           | _ -> ())
+        | Edge _ -> ()) facts'
+  end;
   let ip = int_of_pos in
   let pr tag k v =
     if k < !maxv then
@@ -215,6 +254,12 @@ let () =
             | [_; m; u] -> !s.facts <- Edge (pos_of_int (int_of_string m), pos_of_int (int_of_string u)) :: !s.facts;
               !s.nfacts <- !s.nfacts + 1
             | _ -> failwith ("bad E line: " ^ l))
+         | 'L' ->
+           (match split_ws l with
+            | ["LS"; pt; a; x] -> !s.stores <- (int_of_string pt, (int_of_string a, int_of_string x)) :: !s.stores
+            | ["LL"; pt; a] -> !s.loads <- (int_of_string pt, int_of_string a) :: !s.loads
+            | ["LA"; pt] -> !s.allocs <- int_of_string pt :: !s.allocs
+            | _ -> failwith ("bad L line: " ^ l))
          | 'Z' -> flush_fn !s
          | _ -> ()
      done
